@@ -71,3 +71,8 @@ INSTANCES = [
     conv('conv_ms', 1, 8, 12, ('thorough',)),
     conv('conv_us', 6, 8, 12, ('thorough',)),
 ]
+
+# the native replay of these instances also needs the model-clock / futex-timeout ghosts, which only a
+# full (unsliced) trace contains
+for _i in INSTANCES:
+    _i['unsliced_trace'] = True
